@@ -1074,7 +1074,17 @@ func (x *Exec) val(st *State, v ssa.Value) (Val, error) {
 			return Val{T: ref, Typ: c.Type()}, nil
 		}
 		key, _ := x.vc.cellKey(t)
-		return Val{Loc: &Loc{Kind: LHeapCell, Key: key, Ref: ref, RootT: t}, Typ: c.Type()}, nil
+		loc := &Loc{Kind: LHeapCell, Key: key, Ref: ref, RootT: t}
+		if x.eng.sentinelError(c) {
+			// a sentinel error variable: initialised once in its package's init to a non-nil error and
+			// never assigned again in that package; every load yields that value
+			name := "gval_" + sanitize(c.Pkg.Pkg.Path()+"."+c.Name())
+			x.vc.decl("sentinel:"+name, fmt.Sprintf("(declare-const %s Iface)\n(assert (and (> (i-typ %s) 0) (>= (i-val %s) 0)))", name, name, name))
+			fz := raw(name, "Iface")
+			loc.Frozen = &fz
+			x.vc.trusted["sentinel error variable "+c.Pkg.Pkg.Path()+"."+c.Name()+" is initialised to a non-nil error in its package's init and never reassigned (checked within its own package)"] = true
+		}
+		return Val{Loc: loc, Typ: c.Type()}, nil
 	case *ssa.Builtin:
 		return Val{}, unsupported("builtin %s used as value", c.Name())
 	}
